@@ -124,7 +124,7 @@ def make_harness(case):
 
 def cases(tier, seed):
     cs = []
-    nmax = 3 if tier == "quick" else 4
+    nmax = 4
     sk = SKELETONS[:3] if tier == "quick" else SKELETONS
     for op in OPS:
         for n in range(1, nmax + 1):
@@ -268,7 +268,7 @@ def describe(tier):
             "Refutations are replayed with real Skia on self-overlapping operands and an independent winding-number sampler."
         ),
         "bounds": {
-            "operands": "1..3 (quick) / 1..4 (thorough), skeletons " + ",".join(SKELETONS[:3] if tier == "quick" else SKELETONS),
+            "operands": "1..4, skeletons " + ",".join(SKELETONS[:3] if tier == "quick" else SKELETONS),
             "rules": "every nonzero/evenodd assignment + invalid rule strings",
             "apis": "svg_pathops functions, svg_types wrappers (clip_rule / explicit fill_rules), SVGPath.remove_overlaps",
             "engine_failure": "abstract op()/simplify() may raise (solver-forked)",
